@@ -113,10 +113,10 @@ v("c06-multiplicity-guard-dropped", {"C06"}, (AW, "                        if m 
 # ----------------------------------------------------------------------------------------------- C07 / C08
 v("c07-9ab-dropped", {"C07"}, (KLAE, "            self.solver.add_constraint(\n                self.solver.quicksum(self.pi_vars[(u, v, i)] for i in range(self.k)) - f_u_v <= self.edge_errors_vars[(u, v)],\n                name=f\"9ab_u={u}_v={v}_i={i}\",\n            )\n", "", 1))
 v("c07-objective-unscaled-writer", {"C07"}, (KLAEC, "                self.edge_errors_vars[(u, v)] * float(self.edge_error_scaling.get((u, v), 1)) if self.edge_error_scaling.get((u, v), 1) != 1 else self.edge_errors_vars[(u, v)]", "                self.edge_errors_vars[(u, v)]", 1))
-v("c07-reader-unscaled", {"C07"}, (KLAE, "return sum(error * self.edge_error_scaling.get(edge, 1) for edge, error in edge_errors.items())", "return sum(edge_errors.values())", 1))
+v("c07-reader-unscaled", {"C07"}, (KLAE, "return sum(error * float(self.edge_error_scaling.get(edge, 1)) for edge, error in edge_errors.items())", "return sum(edge_errors.values())", 1))
 v("c08-scale-on-slack-side", {"C08"}, (KMPEC, "<= self.solver.quicksum(self.gamma_vars[(u, v, i)] for i in range(self.k)),\n                name=f\"9aa_u={u}_v={v}_i={i}\",", "<= self.solver.quicksum(self.gamma_vars[(u, v, i)] for i in range(self.k - 1)),\n                name=f\"9aa_u={u}_v={v}_i={i}\",", 1))
 v("c08-objective-max", {"C08"}, (KMPE, "self.solver.quicksum(self.path_slacks_vars[(i)] for i in range(self.k)), sense=\"minimize\"", "self.solver.quicksum(self.path_slacks_vars[(i)] for i in range(self.k)), sense=\"maximize\"", 1))
-v("c08-path-length-not-switched-on", {"C08"}, (KMPE, "            encode_edge_position=True,\n", "            encode_edge_position=False,\n", 1))
+v("c08-path-length-not-switched-on", {"C08"}, (KMPE, "            encode_path_length=True,\n", "            encode_path_length=False,\n", 1))
 v("c08-k-none-before-scale0", {"C08"}, (KMPE, "            self.k = self.G.get_width(list(self.edges_to_ignore))", "            self.k = self.G.get_width(list(edges_to_ignore_internal))", 1))
 # ----------------------------------------------------------------------------------------------- C10 / C11
 v("c10-7b-dropped", {"C10", "C05"}, (AP, "                    self.solver.quicksum(self.subpaths_vars[(i, j)] for i in range(self.k)) >= 1,", "                    self.solver.quicksum(self.subpaths_vars[(i, j)] for i in range(self.k)) >= 0,", 1))
@@ -247,11 +247,11 @@ v("c19-conservation-loose", {"C19"}, (GU, "        elif not abs(out_flow - in_fl
 v("c19-conservation-early-accept", {"C19"}, (GU, "            return False\n\n    return True", "            return False\n        return True\n\n    return True", 1))
 v("benign-conservation-renamed", B, (GU, "        elif not abs(out_flow - in_flow) <= 4 * (G.in_degree(v) + G.out_degree(v)) * math.ulp(max(abs(float(out_flow)), abs(float(in_flow)))):\n            return False", "        elif not abs(in_flow - out_flow) <= 4 * (G.out_degree(v) + G.in_degree(v)) * math.ulp(max(abs(float(in_flow)), abs(float(out_flow)))):\n            return False", 1))
 # --- C17.R5 / C02.R8 peeling
-v("c17-peel-skips-last-edge", {"C17", "C02"}, (SDAG, "            for i in range(len(path) - 1):\n                temp_G[path[i]][path[i + 1]][flow_attr] -= bottleneck", "            for i in range(len(path) - 2):\n                temp_G[path[i]][path[i + 1]][flow_attr] -= bottleneck", 1))
+v("c17-peel-skips-last-edge", {"C17", "C02"}, (SDAG, "            for i in range(len(path) - 1):\n", "            for i in range(len(path) - 2):\n", 1))
 v("c17-peel-max-instead-of-min", {"C17", "C02"}, (GU, "uBottleneck = min(B[u], G.edges[u, v][flow_attr])", "uBottleneck = max(B[u], G.edges[u, v][flow_attr])", 1))
 v("c17-peel-predecessor-outside-update", {"C17", "C02"}, (GU, "                if uBottleneck > B[v]:\n                    B[v] = uBottleneck\n                    maxInNeighbor[v] = u", "                if uBottleneck > B[v]:\n                    B[v] = uBottleneck\n                maxInNeighbor[v] = u", 1))
 v("c17-peel-on-self", {"C17", "C02"}, (SDAG, "            bottleneck, path = graphutils.max_bottleneck_path(temp_G, flow_attr)", "            bottleneck, path = graphutils.max_bottleneck_path(self, flow_attr)", 1))
-v("benign-peel-renamed", B, (SDAG, "            for i in range(len(path) - 1):\n                temp_G[path[i]][path[i + 1]][flow_attr] -= bottleneck", "            for pos in range(0, len(path) - 1):\n                temp_G[path[pos]][path[pos + 1]][flow_attr] -= bottleneck", 1))
+v("benign-peel-renamed", B, (SDAG, "                temp_G[path[i]][path[i + 1]][flow_attr] = temp_G[path[i]][path[i + 1]][flow_attr] - bottleneck", "                remaining = temp_G[path[i]][path[i + 1]][flow_attr]\n                temp_G[path[i]][path[i + 1]][flow_attr] = remaining - bottleneck", 1))
 # --- decomposition-level benign edits (sa/inline)
 v("benign-rename-private-encoder", B, (KFD, "_encode_flow_decomposition_with_given_weights", "_encode_decomposition_with_given_weights", 2))
 v("benign-extract-objective-helper", B, (KPC, "    def get_solution(self):", "    def _noop_helper(self, x):\n        y = x\n        return y\n\n    def get_solution(self):", 1))
@@ -327,3 +327,9 @@ v("c20-duplicate-lines-by-edge-set", {"C20"}, (GU, "                seq_key = tu
 v("benign-duplicate-lines-by-text", B, (GU, "                seq_key = tuple(nodes_seq)", "                seq_key = \" \".join(nodes_seq)", 1))
 v("c18-run-clock-started-once", {"C18"}, ("flowpaths/minpathcover.py", "        self.solve_time_start = time.perf_counter()", "        if self.solve_time_start is None:\n            self.solve_time_start = time.perf_counter()", 1))
 v("c07-objective-raw-scaling-factor", {"C07"}, ("flowpaths/kleastabserrorscycles.py", "        return sum(error * float(self.edge_error_scaling.get(edge, 1)) for edge, error in edge_errors.items())", "        return sum(error * self.edge_error_scaling.get(edge, 1) for edge, error in edge_errors.items())", 1))
+
+v("c18-peel-in-place", {"C18"}, (SDAG, "                temp_G[path[i]][path[i + 1]][flow_attr] = temp_G[path[i]][path[i + 1]][flow_attr] - bottleneck", "                temp_G[path[i]][path[i + 1]][flow_attr] -= bottleneck", 1))
+v("c18-lowerbound-partial-cache", {"C18"}, ("flowpaths/minflowdecompcycles.py", "        except Exception:\n            self._lowerbound_k = None\n            raise", "        except Exception:\n            raise", 1))
+v("c06-tolerance-unit-float64-only", {"C06"}, ("flowpaths/utils/safetyflowdecomp.py", "max([Fraction(math.ulp(float(max(abs(value) for value in bound_values))))] + narrow_spacings)", "Fraction(math.ulp(float(max(abs(value) for value in bound_values))))", 1))
+v("c17-flow-width-raw-capacity", {"C17"}, (SDAG, "            if isinstance(edge_capacity, numbers.Integral):\n                edge_capacity = int(edge_capacity)\n", "", 1))
+v("c04-cap-min-instead-of-one", {"C04", "C08"}, ("flowpaths/abstractwalkmodeldigraph.py", "                self.edge_upper_bounds[edge] = 1\n", "                self.edge_upper_bounds[edge] = min(1, self.edge_upper_bounds[edge])\n", 1))
